@@ -207,7 +207,7 @@ func c20Run(r *vkit.Run) {
 		}
 	}
 	rec("", 0)
-	dict := strings.Fields("com.docker.compose.project com.docker.compose.service org.opencontainers.image.title org.opencontainers.image.source maintainer io.kubernetes.pod.name desktop.docker.io/binds/0/Source 0day 9 traefik.http.routers.web.rule ip rate count sum sort topk vector bytes duration duration_seconds label_replace")
+	dict := strings.Fields("com.docker.compose.project com.docker.compose.service org.opencontainers.image.title org.opencontainers.image.source maintainer io.kubernetes.pod.name desktop.docker.io/binds/0/Source 0day 9 traefik.http.routers.web.rule ip rate count sum sort topk vector bytes duration duration_seconds label_replace inf nan infinity true false null e pi")
 	for k := range c20Keyword {
 		dict = append(dict, k)
 	}
